@@ -5,6 +5,7 @@ Export ListNotations.
 Open Scope N_scope.
 (* `String` is exported for literals only; `length` always means the list one. *)
 Notation length := List.length (only parsing).
+Notation concat := List.concat (only parsing).
 
 (* A Rust `String`/`&str` is modelled as the list of its Unicode scalar values. *)
 Definition str := list N.
